@@ -268,9 +268,11 @@ impl<'tcx> Ex<'tcx> {
                     .fields
                     .iter()
                     .map(|fd| {
+                        let fty = tcx.type_of(fd.did).instantiate_identity().skip_norm_wip();
                         J::Obj(vec![
                             ("name", J::Str(fd.name.to_string())),
                             ("pub", J::Bool(fd.vis.is_public())),
+                            ("ty", J::Str(self.ty_str(fty))),
                         ])
                     })
                     .collect();
